@@ -35,7 +35,7 @@ ALL_FEATURES = {
     "array_pop", "early_return", "shadowing", "else_if", "assert_stmt", "array_pass", "struct_pass",
     "string_escapes", "effectful_logic", "continue_in_for", "print_enum", "min_max", "array_slice",
     "array_struct", "float_arith", "deep_expr", "array_alias", "str_substring", "char_at", "global_shadow",
-    "unused_results", "long_strings", "self_compare", "tuple_pass", "effectful_args", "shadow_type_change", "out_of_scope_reference", "array_float", "struct_array_field", "fn_returning_composite", "print_float", "loop_nest", "global_init_expr", "guard_idiom",
+    "unused_results", "long_strings", "self_compare", "tuple_pass", "effectful_args", "shadow_type_change", "out_of_scope_reference", "array_float", "struct_array_field", "fn_returning_composite", "print_float", "loop_nest", "global_init_expr", "guard_idiom", "ext_builtins",
 }
 
 
@@ -705,7 +705,19 @@ def gen_int(g, sc, d):
         if vs and g.chance(2, 3):
             return ("var", g.pick(vs))
         return lit_int(g)
-    k = g.i(0, 19)
+    k = g.i(0, 23)
+    if k >= 20 and g.has("ext_builtins"):
+        g.use("ext_builtin_int")
+        if k == 20 and g.has("strings"):
+            return ("bi", "string_to_int", [("str", g.pick([b"123", b"-45", b"12ab", b"", b"007", b"0", b"99999"]))])
+        if k == 21:
+            return ("bi", g.pick(["char_to_lower", "char_to_upper", "digit_value"]), [("int", g.pick([48, 57, 65, 90, 97, 122, 32, 95, 0]))])
+        if k == 22 and g.has("floats"):
+            inner = gen_float(g, sc, min(d - 1, 1))
+            if g.b():
+                inner = ("bi", g.pick(["floor", "ceil", "round"]), [inner])
+            return ("bi", "cast_int", [inner])
+        return ("bi", "cast_int", [gen_bool_pure(g, sc, min(d - 1, 1))])
     if k <= 5:
         op = g.pick(["+", "-", "*"])
         a, b = gen_args(g, sc, ["int", "int"], d - 1)
@@ -783,7 +795,12 @@ def gen_bool(g, sc, d):
         if vs and g.b():
             return ("var", g.pick(vs))
         return ("bool", g.b())
-    k = g.i(0, 13)
+    k = g.i(0, 15)
+    if k >= 14 and g.has("ext_builtins"):
+        g.use("ext_builtin_bool")
+        if k == 14:
+            return ("bi", g.pick(["is_digit", "is_alpha", "is_upper", "is_lower", "is_whitespace"]), [("int", g.pick([48, 57, 65, 90, 97, 122, 32, 95, 10, 9, 64, 91]))])
+        return ("bi", "cast_bool", [gen_int(g, sc, min(d - 1, 1))])
     if k <= 4:
         g.use("cmp_int")
         a, b = gen_args(g, sc, ["int", "int"], d - 1)
@@ -864,7 +881,12 @@ def gen_string(g, sc, d):
         if vs and g.b():
             return ("var", g.pick(vs))
         return lit_str(g)
-    k = g.i(0, 9)
+    k = g.i(0, 11)
+    if k >= 10 and g.has("ext_builtins"):
+        g.use("ext_builtin_string")
+        if k == 10:
+            return ("bi", "string_from_char", [("int", g.pick([65, 90, 97, 122, 48, 57, 33, 126]))])
+        return ("bi", "cast_string", [gen_int(g, sc, min(d - 1, 1)) if g.b() else gen_bool_pure(g, sc, min(d - 1, 1))])
     if k <= 2:
         g.use("str_concat_plus")
         a, b = gen_args(g, sc, ["string", "string"], d - 1)
@@ -910,7 +932,15 @@ def gen_float(g, sc, d):
         if vs and g.b():
             return ("var", g.pick(vs))
         return lit_float(g)
-    k = g.i(0, 6)
+    k = g.i(0, 8)
+    if k >= 7 and g.has("ext_builtins"):
+        g.use("ext_builtin_float")
+        if k == 7:
+            return ("bi", "cast_float", [gen_int(g, sc, min(d - 1, 1))])
+        f = g.pick(["sqrt", "floor", "ceil", "round", "abs"])
+        if f == "sqrt":
+            return ("bi", "sqrt", [("float", g.pick([0.0, 1.0, 4.0, 6.25, 100.0, 2.25]))])
+        return ("bi", f, [gen_float(g, sc, d - 1)])
     if k == 6:
         g.use("float_div")
         a = gen_float(g, sc, d - 1)
